@@ -119,5 +119,30 @@ def run(rep: Report, tier: str) -> None:
                                         f"double just below a decimal tie rounds differently than the same value written in a CSV"))
     rep.floor("type cells", ncell, 16)
     rep.analysed = {"types": TYPES, "cells": ncell}
+    # ---- R18.4: a Date column of a DataFrame is stored as TIMESTAMP as soon as ANY value carries a time (the CSV loader always does) ----
+    rep.rule("R18.4", "DataFrame Date column: TIMESTAMP iff some value has a time part (existential decision over all values)")
+    dd = P.func("vtlengine.duckdb_transpiler.io._io._detect_date_type_overrides")
+    sets_ = [n for n in walk_no_nested(dd.node) if isinstance(n, ast.Assign) and isinstance(n.targets[0], ast.Subscript) and src(n.targets[0].value) == "overrides"]
+    rep.instance("R18.4", "existential-decision", nontrivial=True, sample=[src(x)[:60] for x in sets_])
+    if not sets_:
+        raise AnalysisError("_detect_date_type_overrides: the TIMESTAMP override assignment was not found")
+    for a_ in sets_:
+        # enclosing loop over the column's values with a per-value test, or an `.any()` reduction
+        p_ = getattr(a_, "_parent", None)
+        per_value_loop = False
+        conds = []
+        while p_ is not None and not isinstance(p_, (ast.FunctionDef, ast.AsyncFunctionDef)):
+            if isinstance(p_, ast.If):
+                conds.append(src(p_.test))
+            if isinstance(p_, ast.For) and "components" not in src(p_.iter):
+                per_value_loop = True
+                break
+            p_ = getattr(p_, "_parent", None)
+        reductions = {c_.func.attr for c_ in ast.walk(dd.node) if isinstance(c_, ast.Call) and isinstance(c_.func, ast.Attribute) and c_.func.attr in ("all", "any")} | \
+            {c_.func.id for c_ in ast.walk(dd.node) if isinstance(c_, ast.Call) and isinstance(c_.func, ast.Name) and c_.func.id in ("all", "any")}
+        if not per_value_loop and "any" not in reductions or "all" in reductions:
+            rep.add(Finding("R18.4", "R18.4/existential-decision", dd.module.rel, a_.lineno, dd.qualname,
+                            f"the TIMESTAMP decision for a DataFrame Date column is not `some value has a time part` (reductions used: {sorted(reductions) or 'none'}; per-value loop: {per_value_loop}): "
+                            f"a column mixing plain dates and date-times is stored as DATE and the times are silently dropped, while the CSV loader (always TIMESTAMP) keeps them"))
     rep.assumptions = ["a CSV value and a string-typed DataFrame/Parquet value with the same text must meet the same rejecting guards",
                        "guards are recognised by error(), regexp_matches and FLOOR/TRUNC integrality tests in the emitted SQL"]
